@@ -380,8 +380,9 @@ def run(ctx, replay=None):
         n_jit = len(first)
     else:
         n_jit = 120
-    jit_idx, futs = c03.start_compiled(ex, [cases[i] for i in fit_idx], n_jit)
-    f_dir = ex.submit(c03.delayed_impl, 0.5, [cases[i] for i in dir_idx])   # em_update_matrix compiled (one signature)
+    budget = c03.JIT_BUDGET_S[ctx.tier]
+    jit_idx, futs = c03.start_compiled(ex, [cases[i] for i in fit_idx], n_jit, budget)
+    f_dir = ex.submit(c03.delayed_impl, 0.5, [cases[i] for i in dir_idx], None, budget)   # em_update_matrix compiled
     impl, info = C.run_impl("c03", cases, {"NUMBA_DISABLE_JIT": "1"})
     if impl is None or len(impl) != len(cases):
         done = len(impl) if impl else 0
@@ -427,7 +428,11 @@ def run(ctx, replay=None):
         if "ok" in rj:
             impl[i] = rj            # judge the compiled result where there is one
     mode_diffs = []
-    if dres is None or len(dres) != len(dir_idx):
+    if dinfo["rc"] == 124:          # budget exhausted: compare what was reached
+        dres = dres or []
+        for i, r in zip(dir_idx, dres):
+            impl[i] = r
+    elif dres is None or len(dres) != len(dir_idx):
         done = len(dres) if dres else 0
         ctx.report("compiled em_update_matrix child died (rc=%s) on direct case %d: %s" % (dinfo["rc"], done, dinfo["tail"][-300:]),
                    {"stage": "impl-crash", "case": cases[dir_idx[done]] if done < len(dir_idx) else None})
@@ -440,6 +445,7 @@ def run(ctx, replay=None):
             impl[i] = r
     ctx.coverage["modes"] = {"NUMBA_DISABLE_JIT=1": len(impl), "compiled_fit": len(jit), "compiled_em_direct": len(dres or []),
                              "compiled_wall_s": {k: v["wall_s"] for k, v in jit_info.items()},
+                             "compiled_budget_exhausted": sorted(k for k, v in jit_info.items() if v["rc"] == 124) + (["em_direct"] if dinfo["rc"] == 124 else []),
                              "interpreted_wall_s": info["wall_s"], "coq_eval_wall_s": t_coq, "coq_cases_dropped_as_slow": n_slow,
                              "em_direct_compiled_wall_s": dinfo["wall_s"]}
     stats = {k: 0 for k in STAT_KEYS}
